@@ -13,6 +13,9 @@ for d in sorted(glob.glob(os.path.join(V, "seeded", "*"))):
     if "first_verdict" not in m:
         m["first_verdict"] = {"caught_by": m.get("caught_by", []), "checks": {p: c.get("rc") for p, c in m.get("checks", {}).items()}}
     props = list(m.get("checks", {}).keys()) or [m["property"]]
+    if subprocess.run(["git", "-C", os.environ.get("VERIF_REPO", "/repo"), "apply", "--check", os.path.join(d, "patch.diff")], capture_output=True).returncode != 0:
+        print(name, "DOES-NOT-APPLY to the current tree (rebase the patch; meta.json left unchanged)")
+        continue
     checks = {}
     for p in props:
         rr = subprocess.run([os.path.join(V, "tools/runmutant.py"), os.path.join(d, "patch.diff"), p], capture_output=True, text=True)
